@@ -21,12 +21,12 @@ use std::collections::{BTreeMap, BTreeSet};
 use std::rc::Rc;
 use std::sync::Arc;
 
-// @grid c15_grid_trace_roundtrip tier=quick bound="every numbers query of the corpus whose arguments are accepted (repository valid queries + extra shapes), at most 400 rows each, each traced from the plain NumbersAdapter and from two read-ahead wrappers of it (chunks of 4; mixed 1..4; first chunk pulled on the first poll); traces serialized to RON (the format the repository stores traces in; JSON cannot represent the tuple-keyed maps inside contexts and is not a supported trace format)"
+// @grid c15_grid_trace_roundtrip tier=quick bound="[+ seeded random accepted documents, VERIF_SEED] every numbers query of the corpus whose arguments are accepted (repository valid queries + extra shapes), at most 400 rows each, each traced from the plain NumbersAdapter and from two read-ahead wrappers of it (chunks of 4; mixed 1..4; first chunk pulled on the first poll); traces serialized to RON (the format the repository stores traces in; JSON cannot represent the tuple-keyed maps inside contexts and is not a supported trace format)"
 // @ob executing through the tracing adapter yields the rows of direct execution; the recorded trace, after a serialize/deserialize round trip, replays to exactly those rows without any data source
 pub(crate) fn c15_grid_trace_roundtrip() {
     let mut n = 0u64;
     let mut failures = BTreeSet::new();
-    for case in corpus() {
+    for case in crate::verif_corpus::corpus_with_random(100, 15) {
         if case.schema_name != "numbers" { continue; }
         let Some(iq) = compile(&case) else { continue; };
         vk::grid_case(format_args!("{}", case.name));
@@ -77,13 +77,13 @@ pub(crate) fn c15_grid_trace_roundtrip() {
 }
 
 
-// @grid c15_grid_trace_roundtrip_call_time_prefetch tier=quick bound="every numbers query of the corpus, traced from a read-ahead wrapper of NumbersAdapter whose resolvers pull their first chunk (4 contexts) inside the resolve_* call, before returning the iterator; at most 400 rows"
+// @grid c15_grid_trace_roundtrip_call_time_prefetch tier=quick bound="[+ seeded random accepted documents, VERIF_SEED] every numbers query of the corpus, traced from a read-ahead wrapper of NumbersAdapter whose resolvers pull their first chunk (4 contexts) inside the resolve_* call, before returning the iterator; at most 400 rows"
 // @ob the trace of a data source that pulls input contexts during the resolver call itself replays to the rows of direct execution
 pub(crate) fn c15_grid_trace_roundtrip_call_time_prefetch() {
     let mut n = 0u64;
     let mut failed: Vec<String> = Vec::new();
     let mut other = BTreeSet::new();
-    for case in corpus() {
+    for case in crate::verif_corpus::corpus_with_random(100, 15) {
         if case.schema_name != "numbers" { continue; }
         let Some(iq) = compile(&case) else { continue; };
         vk::grid_case(format_args!("{}", case.name));
